@@ -98,7 +98,18 @@ func (r *Response) WriteTo(w io.Writer) (int64, error) {
 var _ encoding.BinaryMarshaler = (*Response)(nil)
 
 func (r Response) MarshalBinary() ([]byte, error) {
-	respBytes, err := httputil.DumpResponse(r.Data, true)
+	// Serialise a copy of the message head, so that connection-level state of this hop does not
+	// become part of the stored message: Close would be written as a "Connection: close" field
+	// the origin never sent (and kept on replay for HTTP/1.0), and trailers are only written for
+	// a chunked message (an HTTP/2 response has no Transfer-Encoding).
+	head := *r.Data
+	head.Close = false
+	if len(head.Trailer) > 0 && len(head.TransferEncoding) == 0 {
+		head.TransferEncoding = []string{"chunked"}
+	}
+	respBytes, err := httputil.DumpResponse(&head, true)
+	// DumpResponse replaced the body by a copy that can be read again: hand it to the response.
+	r.Data.Body = head.Body
 	if err != nil {
 		return nil, fmt.Errorf("failed to marshal response: %w", err)
 	}
